@@ -4,6 +4,7 @@
 // of the bad block's branch in order; the verdict of the bad block is compared with the specification's (SAFE: a node that
 // verifies where it could have skipped is counted, not reported).
 //   assumevalid table <rows.ndjson>
+//   assumevalid history <tests.ndjson> <hb> <fork> <avh> <farh>      connection histories of specs/AssumeValid/AssumeValidHist.tla
 #include <chainsim.h>
 using namespace vfh;
 
@@ -148,11 +149,107 @@ std::string CheckRow(const UniValue& row)
     if (!accepted && skip) R().Count("verified_where_skip_allowed");     // more conservative than the property requires: not a violation
     return "";
 }
+
+// ---------------------------------------------------------------------------------------------------------------------------------
+// Connection histories (specs/AssumeValid/AssumeValidHist.tla): the bad block X = main[hb] is connected, disconnected (reorg to a side
+// branch, or invalidateblock), the header tree changes, and X is connected again. Compared after every step: is X in the active
+// chain, is it marked failed, the tip, the best header. SAFE: X missing where the model allows skipping = counted, test ends.
+struct Geo { int hb, fork, avh, farh; } g_geo;
+struct HistWorld {
+    std::unique_ptr<ChainSim> sim;
+    Tree tree;
+    int mainhdr{0}, sidefull{0};
+    uint256 xhash;
+    explicit HistWorld(const UniValue& cfg)
+    {
+        g_hb = g_geo.hb;
+        const int dist0 = cfg["dist0"].getInt<int>();
+        mainhdr = g_geo.hb + dist0; sidefull = g_geo.hb + dist0 + 6;
+        try { tree = GetTree(nullptr, true, false, g_geo.fork, mainhdr, sidefull); }
+        catch (const NeedBuilder&) { auto tmp = MakeSim(SimOptions{}); tree = GetTree(tmp.get(), true, false, g_geo.fork, mainhdr, sidefull); }
+        SimOptions o;
+        const uint64_t w = 2 * (uint64_t)(mainhdr + 1);
+        o.min_chain_work = arith_uint256(cfg["mcw"].get_str() == "below" ? w - 1 : w + 1);
+        if (cfg["av"].get_str() == "set") o.assumed_valid = tree.Block("m", g_geo.avh).GetHash();
+        sim = MakeSim(o);
+        SetMockTime(Params().GenesisBlock().nTime + 1000000);
+        xhash = tree.Block("m", g_geo.hb).GetHash();
+    }
+    void Apply(const std::string& op)
+    {
+        if (op == "start") {
+            FeedHeaders(*sim, *tree.main, 1, mainhdr);
+            for (int h = 1; h <= g_geo.hb; ++h) sim->SubmitBlock(tree.Ptr("m", h), true);
+        } else if (op == "forkaway") {
+            for (int h = g_geo.fork + 1; h <= g_geo.hb + 1; ++h) sim->SubmitBlock(tree.Ptr("s", h), true);
+        } else if (op == "sidehdrs") {
+            FeedHeaders(*sim, *tree.side, g_geo.fork + 1, sidefull);
+        } else if (op == "invfar") {
+            sim->Invalidate(tree.Block("m", g_geo.farh).GetHash());
+        } else if (op == "comeback") {
+            sim->SubmitBlock(tree.Ptr("m", g_geo.hb + 1), true);
+            sim->SubmitBlock(tree.Ptr("m", g_geo.hb + 2), true);
+        } else if (op == "invx") {
+            sim->Invalidate(xhash);
+        } else if (op == "reconsx") {
+            sim->Reconsider(xhash);
+        } else throw std::runtime_error("unknown op " + op);
+    }
+    UniValue Where(const CBlockIndex* pi)
+    {
+        if (!pi) return Obj({{"br", "none"}, {"h", -1}});
+        const int h = pi->nHeight;
+        if (h == 0) return Obj({{"br", "m"}, {"h", 0}});
+        if (h <= tree.main->Top() && tree.main->At(h).GetHash() == pi->GetBlockHash()) return Obj({{"br", "m"}, {"h", h}});
+        if (tree.side && h > g_geo.fork && h <= tree.side->Top() && tree.side->At(h).GetHash() == pi->GetBlockHash()) return Obj({{"br", "s"}, {"h", h}});
+        return Obj({{"br", "unknown"}, {"h", h}});
+    }
+    UniValue Project()
+    {
+        LOCK(cs_main);
+        auto& cm = sim->cm();
+        const CBlockIndex* px = cm.m_blockman.LookupBlockIndex(xhash);
+        return Obj({{"xin", px && cm.ActiveChain().Contains(*px)}, {"xfailed", px && (px->nStatus & BLOCK_FAILED_VALID) != 0},
+                    {"tip", Where(cm.ActiveChain().Tip())}, {"best", Where(cm.m_best_header)}});
+    }
+};
+
+int History(const std::string& path)
+{
+    InstallAbortHandlers();
+    ForEachLine(path, [&](size_t n, const UniValue& t) {
+        R().cur_test = n; R().cur_step = 0; R().cur_action = UniValue::VNULL;
+        std::unique_ptr<HistWorld> w;
+        const UniValue& st = t["steps"];
+        for (size_t i = 0; i < st.size(); ++i) {
+            R().cur_step = i; R().cur_action = st[i]["a"];
+            std::string why; bool diverged = false;
+            try {
+                if (!w) w = std::make_unique<HistWorld>(t["init"]["cfg"]);
+                w->Apply(st[i]["a"][0].get_str());
+                const UniValue have = w->Project();
+                const UniValue& exp = st[i]["exp"];
+                const bool hx = have["xin"].get_bool(), ex = exp["xin"].get_bool();
+                if (hx && !ex) why = "the block with the failing script is in the active chain although the assumed-valid conditions did not hold at this connection (model: not connected by this step; conditions at its last successful connection: " + exp["last"].get_str() + ")";
+                else if (!hx && ex) { R().Count("verified_where_skip_allowed"); diverged = true; }
+                else for (const char* k : {"xfailed", "tip", "best"}) { if (why.empty() && exp["started"].get_bool()) why = JsonDiff(exp[k], have[k], std::string("state.") + k); }
+                if (why.empty() && !diverged) R().Count(hx ? "steps_with_bad_block_in_chain" : "steps_with_bad_block_out");
+            } catch (const std::exception& e) { why = std::string("exception: ") + e.what(); }
+            ++R().steps;
+            if (!why.empty()) { R().Mismatch(st[i]["a"], why); break; }
+            if (diverged) break;
+        }
+        ++R().tests;
+    });
+    R().Summary();
+    return 0;
+}
 } // namespace
 
 int main(int argc, char** argv)
 {
     if (argc < 3) { std::cerr << "usage: assumevalid table <rows>\n"; return 2; }
     if (std::string(argv[1]) == "table") return TableMain(argv[2], CheckRow);
+    if (std::string(argv[1]) == "history" && argc >= 7) { g_geo = Geo{atoi(argv[3]), atoi(argv[4]), atoi(argv[5]), atoi(argv[6])}; return History(argv[2]); }
     return 2;
 }
